@@ -123,7 +123,11 @@ def geometry_names_leg(ctx):
         else:
             d = gen.any_dataset(rng, fam)
             ds = d.ds
+            # (a SHOC simple file names its time variable `time`; a dimension of that name without the variable is an artefact no
+            # file has - see section 13 of DESIGN.md - so the dimension gets its variable)
             gen.add_data_vars(rng, ds, d.spec['kinds'], names_prefix='gv')
+            if d.family == 'shoc_simple' and 'time' in ds.dims and 'time' not in ds.variables:
+                ds = gen.add_time(ds, n=ds.sizes['time'])
         with warnings.catch_warnings():
             warnings.simplefilter('ignore')
             ems = ds.ems
